@@ -11,7 +11,8 @@ import (
 
 // Used to marshal input types for default value introspection.
 func marshalValue(t schema.Type, v interface{}) (string, error) {
-	if v == schema.Null {
+	if v == nil || v == schema.Null {
+		// Null items of lists and null input object fields are plain nils.
 		return "null", nil
 	}
 
